@@ -83,6 +83,8 @@ def run(ctx):
         target = rng.choice(TARGETS)
         add_head = rng.choice([" ", " ", "", "\n", " \t"])
         o = common.load_tree(d)
+        if i % 9 == 4:
+            ctx.count("nodes of user-defined subclasses (mixin first)", trees.user_subclasses(o, rng))
         snap = trees.snapshot(o)
         info = {"tree": d, "target": target, "add_head": add_head}
         try:
